@@ -49,7 +49,7 @@ func runSequential(start time.Time, level slog.Level, input []byte) []handler.Me
 		}
 		close(done)
 	}()
-	waitOrHang(done, caseWatchdog, "sequential framing did not finish")
+	waitOrHangGone(done, caseWatchdog, "sequential framing did not finish")
 	return msgs
 }
 
@@ -112,7 +112,7 @@ func runTimedX(input []byte, pauseAt map[int]time.Duration, consStall time.Durat
 		}
 		close(done)
 	}()
-	waitOrHang(done, caseWatchdog+onceStall+time.Duration(len(pauseAt)+40)*(consStall+time.Second), "stream handler with a stalling producer/consumer did not finish")
+	waitOrHangGone(done, caseWatchdog+onceStall+time.Duration(len(pauseAt)+40)*(consStall+time.Second), "stream handler with a stalling producer/consumer did not finish")
 	return msgs
 }
 
@@ -158,7 +158,7 @@ func runSideBySide(streams [][]byte, seed uint64) [][]handler.Message {
 	}
 	done := make(chan struct{})
 	go func() { wg.Wait(); close(done) }()
-	waitOrHang(done, caseWatchdog, "stream handlers running side by side did not finish")
+	waitOrHangGone(done, caseWatchdog, "stream handlers running side by side did not finish")
 	return out
 }
 
@@ -222,7 +222,7 @@ func execLiveCase(c *child.Ctx, k streamCase, cj []byte, sig string) {
 		}
 		close(done)
 	}()
-	waitOrHang(done, caseWatchdog, "stream handler with a live source did not finish")
+	waitOrHangGone(done, caseWatchdog, "stream handler with a live source did not finish")
 	if why := compareSeq(msgs, k.Expect); why != "" {
 		c.Violate(sig, k.Note+" (input queue of "+fmt.Sprint(k.InCap)+" bytes): "+why, cj)
 	}
@@ -693,6 +693,50 @@ func monC01(c *child.Ctx, replay json.RawMessage) {
 		k := streamCase{Input: hexs(f.Bytes), Direct: true, Note: "reused buffer"}
 		cj := c.BeginV(k)
 		execC01Reused(c, r, f.Bytes, cj)
+	}
+	// single-frame decoding of a buffer in which the frame is NOT at the front: other
+	// data first (a line end, a NUL, the tail of an earlier message), then a complete
+	// valid frame, then sometimes more.  Whatever is returned typed and without an
+	// error must be a frame and a prefix of the input - so nothing typed at all here.
+	nLead := c.Share(c.Pick(3000, 60000))
+	for i := 0; i < nLead; i++ {
+		f := gen.RandFrame(r)
+		for !gen.SafeMSMPayload(f.Type, len(f.Bytes)-6) || len(f.Bytes) > 300 {
+			f = gen.RandFrame(r)
+		}
+		var lead []byte
+		switch i % 6 {
+		case 0:
+			lead = []byte{'\n'}
+		case 1:
+			lead = []byte{'\r', '\n'}
+		case 2:
+			lead = make([]byte, r.Range(1, 8))
+		case 3:
+			lead = gen.NoD3(r.Bytes(r.Range(1, 12)))
+		case 4: // the tail of an earlier frame, its own start byte somewhere inside
+			g := gen.RandFrame(r).Bytes
+			lead = append([]byte(nil), g[len(g)-r.Range(1, min2(len(g), 9)):]...)
+			if lead[0] == 0xD3 {
+				lead[0] = 0x53
+			}
+		default:
+			lead = gen.NoD3(r.Bytes(r.Range(13, 1100)))
+		}
+		in := append(append([]byte(nil), lead...), f.Bytes...)
+		switch r.Intn(3) {
+		case 1:
+			in = append(in, f.Bytes[:r.Range(1, len(f.Bytes))]...)
+		case 2:
+			in = append(in, r.Bytes(r.Range(1, 16))...)
+		}
+		k := streamCase{Input: hexs(in), Direct: true, Note: fmt.Sprintf("%d bytes of other data in front of a valid frame", len(lead))}
+		if r.Chance(1, 3) {
+			k.Spare = hexs(f.Bytes[len(f.Bytes)-min2(len(f.Bytes), 12):])
+		}
+		cj := c.BeginV(k)
+		execC01Direct(c, k, cj)
+		c.Count("direct_with_other_data_in_front", 1)
 	}
 	// very long runs without a start byte (text, zeros, another protocol), around the
 	// sizes at which buffers are typically capped, between frames
@@ -1768,7 +1812,7 @@ func runScheduled(k streamCase) schedObs {
 		}
 		close(done)
 	}()
-	waitOrHang(done, caseWatchdog, "output channel was not closed after the input was closed")
+	waitOrHangGone(done, caseWatchdog, "output channel was not closed after the input was closed")
 	waitOrHang(returned, caseWatchdog, "HandleMessages did not return after closing its output")
 	obs.hookSum = verifhook.End()
 	return obs
